@@ -209,6 +209,30 @@ impl Drop for GateWait {
     }
 }
 
+/// scripted readiness of a user-supplied service (`Service::ready`)
+#[derive(Debug, Clone, Copy, PartialEq, Eq)]
+pub enum ReadyMode {
+    /// ready at once (default)
+    Ready,
+    /// readiness fails with the application's error
+    Fail,
+    /// not ready until the controller changes the mode
+    Wait,
+}
+
+pub const SVC_PUB: usize = 0;
+pub const SVC_PROTO: usize = 1;
+pub const SVC_CTL: usize = 2;
+
+/// something a handler does with the sink *inside* its own invocation and awaits before it answers
+#[derive(Debug, Clone, Copy, PartialEq, Eq)]
+pub enum InnerOp {
+    /// sink.publish(..).send_at_least_once(..).await
+    SendQ1,
+    /// sink.ready().await
+    Ready,
+}
+
 #[derive(Debug, Clone, Copy, PartialEq, Eq, Hash, PartialOrd, Ord)]
 pub enum GateKind {
     Pub,
@@ -249,6 +273,14 @@ pub struct App {
     pub raw_writes: Cell<bool>,
     /// the universal monitors have judged this connection already
     pub judged: Cell<bool>,
+    /// scripted readiness of the publish / protocol / control services
+    pub ready_mode: [Cell<ReadyMode>; 3],
+    ready_gate: [RefCell<Gate>; 3],
+    /// how often each service's `ready()` was asked / answered not-ready-yet
+    pub ready_calls: [Cell<u32>; 3],
+    /// inner operations the next publish / protocol handler invocations perform (front = next)
+    pub pub_inner: RefCell<VecDeque<Option<InnerOp>>>,
+    pub proto_inner: RefCell<VecDeque<Option<InnerOp>>>,
 }
 
 impl App {
@@ -289,6 +321,11 @@ impl App {
             peer_pkts: RefCell::new(Vec::new()),
             raw_writes: Cell::new(false),
             judged: Cell::new(false),
+            ready_mode: [Cell::new(ReadyMode::Ready), Cell::new(ReadyMode::Ready), Cell::new(ReadyMode::Ready)],
+            ready_gate: [RefCell::new(Gate::default()), RefCell::new(Gate::default()), RefCell::new(Gate::default())],
+            ready_calls: [Cell::new(0), Cell::new(0), Cell::new(0)],
+            pub_inner: RefCell::new(VecDeque::new()),
+            proto_inner: RefCell::new(VecDeque::new()),
         })
     }
 
@@ -305,6 +342,32 @@ impl App {
         let seq = self.log(Ev::PeerSent(crate::map::brief(p)));
         self.peer_pkts.borrow_mut().push((seq, p.clone()));
         seq
+    }
+
+    /// change the scripted readiness of service `which` (SVC_PUB / SVC_PROTO / SVC_CTL); a
+    /// `ready()` call that is waiting re-evaluates
+    pub fn set_ready(&self, which: usize, mode: ReadyMode) {
+        self.ready_mode[which].set(mode);
+        let g = self.ready_gate[which].replace(Gate::default());
+        g.open(Outcome::Ok);
+    }
+
+    /// body of `Service::ready` of the instrumented services: Ok(true) ready, Ok(false) failed
+    pub async fn service_ready(&self, which: usize) -> bool {
+        self.ready_calls[which].set(self.ready_calls[which].get() + 1);
+        loop {
+            match self.ready_mode[which].get() {
+                ReadyMode::Ready => return true,
+                ReadyMode::Fail => {
+                    self.log(Ev::Note(format!("readiness of service {which} fails")));
+                    return false;
+                }
+                ReadyMode::Wait => {
+                    let g = self.ready_gate[which].borrow().clone();
+                    g.wait().await;
+                }
+            }
+        }
     }
 
     pub fn next_call(&self) -> u32 {
